@@ -78,6 +78,10 @@ def _init_worker() -> None:
     os.environ['RUST_BACKTRACE'] = '0'
     import multiprocessing
     if multiprocessing.current_process().name != 'MainProcess':
+        # keep the collector away from the heap inherited from the parent
+        # (copy-on-write faults cost more than the passes themselves)
+        import gc
+        gc.freeze()
         # native panics print to fd 2; pool workers report through values
         fd = os.open(os.devnull, os.O_WRONLY)
         os.dup2(fd, 2)
